@@ -351,6 +351,23 @@ def discharge(eng, rep, opts):
                 d["seconds"] = round(d["seconds"] + res["seconds"], 4)
                 return None               # a hint that does not prove is no verdict
             work = run(work, by_hint, need_full=False)
+            # second try for what has no (working) hint of its own, e.g. after an edit that renumbered the obligations:
+            # the assumptions used by ANY recorded proof of this function (still a subset of the path condition)
+            if work and not opts.get("make_hints"):
+                union = set()
+                for h in hint_data.values():
+                    union |= set(h["fps"])
+                uq = {id(ob): Query(tmp, f"{order[id(ob)]}u", ob, {i for i, a in enumerate(ob.pc) if hints.fingerprint(a) in union})
+                      for d, ob in work}
+
+                def by_union(d, ob):
+                    res = solve_job(uq[id(ob)].path, HINTED[:2])
+                    if res["status"] == "unsat":
+                        record(d, res, "+hints-of-function")
+                        return res
+                    d["seconds"] = round(d["seconds"] + res["seconds"], 4)
+                    return None
+                work = run(work, by_union, need_full=False)
 
         if opts.get("make_hints"):
             make_hints(rep, work, keys, hint_data, run, full_query, record, tmp, order)
